@@ -1,6 +1,11 @@
-rc_target("c09_array", flavour="asan-dbg")
-rc_target("c09_linked", flavour="asan-dbg")
-plan("C09", [T("c09_array", 25000, 200000), T("c09_linked", 25000, 200000)], min_nt=12000,
+# Same ASan options as the driver's defaults plus a small quarantine and short allocation stacks: with the defaults a
+# rapidcheck worker grows by ~10-25 kB per case (stack depot of deep generator stacks + 256 MB quarantine), i.e. several
+# GB per worker at the thorough case count.  32 MB of quarantine is still hundreds of cases' worth of freed blocks.
+_C09_ENV = {"ASAN_OPTIONS": "detect_leaks=0:abort_on_error=1:allocator_may_return_null=1:detect_stack_use_after_return=0:"
+                            "handle_abort=0:quarantine_size_mb=32:malloc_context_size=5"}
+rc_target("c09_array", flavour="asan-dbg", env=_C09_ENV)
+rc_target("c09_linked", flavour="asan-dbg", env=_C09_ENV)
+plan("C09", [T("c09_array", 25000, 150000), T("c09_linked", 25000, 150000)], min_nt=12000,
      rule="stateful command sequences against a reference sequence (array list: vector of byte strings per list; linked list: two id vectors + membership table)",
      technique="model-based property testing (rapidcheck): command sequences vs. a reference sequence, full content / traversal comparison after every command",
      level_text="Generated search: thousands of shrinking command sequences (<=60 commands) per run. Array list: two lists of one item size in "
